@@ -41,10 +41,28 @@ def cases(tier, seed):
         m = i % 6
         kw = dict(methods=(m,), seasons=(1, 3), p_gw=0.1, p_custom=0.2, limits=0.5, p_bunds=0.1,
                   regimes=["arid", "warm", "hot", "temperate", "monsoon"], p_file=0.25)
+        if m == 1 and i % 12 == 1:
+            kw.update(pre=(0,), iwc_kinds=("Pct",), p_gw=0.0)      # the season starts on the first simulated day
+        if m == 1 and i % 12 == 7:
+            kw.update(dry=True, regimes=["arid", "hot"], p_file=0.0, p_gw=0.0)
         sp = gen.config(rng, **kw)
         if m == 1:
             vals = [float(x) for x in rng.permutation([30, 50, 70, 90])]
             sp["irr"]["kw"]["SMT"] = vals
+        if m == 1 and i % 12 == 1:
+            # day-1 depletion between the first and the last stage's allowable depletion
+            nl = base.S.n_layers(sp)
+            sp["iwc"] = {"wc_type": "Pct", "method": "Layer", "depth_layer": list(range(1, nl + 1)),
+                         "value": [float(gen.pick(rng, [40, 50, 60]))] * nl}
+            a, b = (30.0, 70.0) if i % 24 == 1 else (70.0, 30.0)
+            sp["irr"]["kw"]["SMT"] = [a, 50.0, 50.0, b]
+        if m == 1 and i % 12 == 7:
+            # stages that tolerate the depletion of all available water (threshold 0 % TAW left):
+            # irrigation is due only once the root zone is drier than wilting point
+            sp["irr"]["kw"]["SMT"] = [float(x) for x in gen.pick(rng, [[0, 0, 0, 0], [0, 40, 0, 0], [20, 0, 0, 10]])]
+            nl = base.S.n_layers(sp)
+            sp["iwc"] = {"wc_type": "Prop", "method": "Layer", "depth_layer": list(range(1, nl + 1)), "value": ["WP"] * nl}
+            sp["weather"].setdefault("params", {}).update(pwet=0.0, pstorm=0.0)
         out.append({"spec": sp})
     return out
 
